@@ -182,10 +182,17 @@ func matrixCase(c *fw.Ctx, idx int) {
 	// ... nor on follower mode (a peer that does not write to the pinset keeps every door
 	// shut that a full member keeps shut): a third of the rounds each, independently
 	tracing, follower := r.Chance(1, 3), r.Chance(1, 3)
-	if tracing || follower {
+	// ... nor on whether pins of a lost member are re-allocated (disable_repinning; the
+	// harness default is true): every second round runs with re-allocation enabled
+	repin := idx%2 == 0
+	{
 		opts.Tune = func(cfg *ipfscluster.Config) {
 			cfg.Tracing = tracing
 			cfg.FollowerMode = follower
+			cfg.DisableRepinning = !repin
+		}
+		if repin {
+			c.Cover("matrix/repinning-enabled")
 		}
 		if tracing {
 			c.Cover("matrix/tracing-enabled")
@@ -269,6 +276,67 @@ func matrixCase(c *fw.Ctx, idx int) {
 			c.Inconclusive("Distrust: " + err.Error())
 		}
 		trusted["U"], trusted["B"] = true, false
+	}
+	// A third member X that is down, with pins allocated to it in the pinset: an untrusted
+	// caller hands X's ID (and the target's own) to the endpoints it may reach. The pinset
+	// must be exactly what it was. (Everything the code under test does on these calls is
+	// done before the call returns, so the comparison needs no waiting.)
+	var before map[string]string
+	pinsetNow := func() map[string]string {
+		out := map[string]string{}
+		pins, err := A.Node.Cluster.Pins(ctx)
+		if err != nil {
+			return nil
+		}
+		for _, p := range pins {
+			b, _ := json.Marshal(p)
+			out[p.Cid.String()] = string(b)
+		}
+		return out
+	}
+	if kind != "raft" {
+		X, _ := peer.IDFromPrivateKey(gen.Key(base + 7))
+		exp := time.Now().Add(time.Hour).UnixNano()
+		A.Mon.SetMetrics("freespace", []*api.Metric{{Name: "freespace", Peer: A.ID, Value: "1000", Valid: true, Expire: exp}})
+		A.Mon.SetMetrics("ping", []*api.Metric{{Name: "ping", Peer: A.ID, Valid: true, Expire: exp}})
+		for i := 0; i < 4; i++ {
+			pin := api.PinCid(gen.UCid(100 + i))
+			pin.ReplicationFactorMin, pin.ReplicationFactorMax = 1, 1+i%2
+			pin.Allocations = []peer.ID{X}
+			if i == 3 {
+				pin.Allocations = []peer.ID{A.ID, X}
+				pin.ReplicationFactorMax = 2
+			}
+			if err := A.Node.Consensus.LogPin(ctx, pin); err != nil {
+				c.Inconclusive("pre-populating the pinset: " + err.Error())
+				return
+			}
+		}
+		before = pinsetNow()
+		if len(before) != 4 {
+			c.Inconclusive(fmt.Sprintf("pre-populated pinset has %d entries", len(before)))
+			return
+		}
+		for _, cl := range []*caller{B, U} {
+			if trusted[cl.name] {
+				continue
+			}
+			for _, target := range []peer.ID{X, A.ID} {
+				var out api.ID
+				cctx, cancel := context.WithTimeout(ctx, 5*time.Second)
+				c.Journal("%s %s -> Cluster.PeerAdd(third peer %s)", kind, cl.name, target)
+				err := cl.client.CallContext(cctx, A.ID, "Cluster", "PeerAdd", target, &out)
+				cancel()
+				c.Eval(fmt.Sprintf("%s/third-peer/%s/PeerAdd(down=%v)/repin=%v/err=%v", kind, cl.name, target == X, repin, err != nil))
+				after := pinsetNow()
+				for k, v := range before {
+					if after != nil && after[k] != v {
+						c.Violation("C07/pinset-changed-by-untrusted-callers/Cluster.PeerAdd", fmt.Sprintf("untrusted %s (%s, repinning=%v) called Cluster.PeerAdd with the ID of another peer (down=%v) and the entry of %s changed: %s -> %s", cl.name, kind, repin, target == X, k, v, after[k]), nil)
+						break
+					}
+				}
+			}
+		}
 	}
 	eps := endpoints()
 	if len(eps) < 40 {
@@ -379,10 +447,16 @@ func matrixCase(c *fw.Ctx, idx int) {
 	}
 	// nothing an untrusted caller did may have changed the pinset: with untrusted-only callers it stays empty
 	if !trusted["B"] && !trusted["U"] {
-		pins, _ := A.Node.Cluster.Pins(ctx)
+		after := pinsetNow()
 		c.Eval(kind + "/pinset-untouched")
-		if len(pins) != 0 {
-			c.Violation("C07/pinset-changed-by-untrusted-callers", fmt.Sprintf("%d pins appeared", len(pins)), nil)
+		if after != nil && len(after) != len(before) {
+			c.Violation("C07/pinset-changed-by-untrusted-callers", fmt.Sprintf("the pinset had %d entries, now %d", len(before), len(after)), nil)
+		}
+		for k, v := range before {
+			if after != nil && after[k] != v {
+				c.Violation("C07/pinset-changed-by-untrusted-callers", fmt.Sprintf("the entry of %s changed: %s -> %s", k, v, after[k]), nil)
+				break
+			}
 		}
 		if n := len(A.IPFS.Calls()); n > 0 {
 			for _, call := range A.IPFS.Calls() {
